@@ -810,6 +810,37 @@ fn xen_part(ctx: &Ctx, _thorough: bool) {
             }
         }
     }
+    // the file range of a UNIX-type range is judged whatever else the flag word says: a range
+    // that names a file must lie inside it, also when the flags ask for an anonymous mapping
+    for off in [0u64, 4096, 4097, 8192, 12288, 1 << 40, u64::MAX - 4095, u64::MAX] {
+        for size in [1usize, 4096, 4097, 8192, 8193] {
+            for flags in [libc::MAP_SHARED, libc::MAP_PRIVATE, libc::MAP_SHARED | libc::MAP_NORESERVE, libc::MAP_SHARED | libc::MAP_ANONYMOUS, libc::MAP_PRIVATE | libc::MAP_ANONYMOUS, libc::MAP_PRIVATE | libc::MAP_ANONYMOUS | libc::MAP_NORESERVE] {
+                ctx.case(true);
+                let unsafe_range = off.checked_add(size as u64).map_or(true, |e| e > 8192) || off % 4096 != 0;
+                let mut range = MmapRange::new_unix(size, Some(FileOffset::new(f.try_clone().unwrap(), off)), GuestAddress(0));
+                range.set_flags(flags);
+                range.set_prot(libc::PROT_READ);
+                let (res, log) = record_maps(|| MmapRegion::<()>::from_range(range));
+                let rp = json!({"unix": true, "offset": off, "size": size, "flags": flags, "file_len": 8192});
+                match res {
+                    Ok(r) => {
+                        if unsafe_range {
+                            fail(ctx, "C15/xen/unix/unsafe-request-accepted", format!("file of 8192 bytes, offset {:#x} size {} flags {:#x}: accepted", off, size, flags), rp.clone());
+                        }
+                        drop(r);
+                    }
+                    Err(e) => {
+                        if !unsafe_range && flags & libc::MAP_ANONYMOUS == 0 {
+                            fail(ctx, "C15/xen/unix/valid-request-refused", format!("offset {:#x} size {} flags {:#x}: {:?}", off, size, flags, e), rp.clone());
+                        }
+                        if !left_mapped(&log).is_empty() {
+                            fail(ctx, "C15/xen/unix/left-mapped-after-failure", "".into(), rp.clone());
+                        }
+                    }
+                }
+            }
+        }
+    }
     let _ = f.as_raw_fd();
     let _ = f.read_at(&mut [0u8; 1], 0);
     let _ = MemoryRegionAddress(0);
